@@ -28,6 +28,9 @@ def run(ctx):
                                max_tick_gap=30, unit_gap_p=0.4, big=(r.random() < 0.1))
         cases.append({"id": f"C05-s{k}", "res": 192, "body": body})
     _notes._judge(ctx, cases, "C05", "seeded tracks with many phrases", max_skip_ratio=0.01)
+    # several instrument sections in one chart, each judged as if it were alone
+    cases = _notes.seeded_multi(ctx, "C05", ctx.pick(150, 2500), max_tick_gap=30, unit_gap_p=0.4)
+    _notes._judge_multi(ctx, cases, "C05", "seeded charts with several sections", max_skip_ratio=0.02)
     # bonus: the cursor invariant and the correctness of the emitted membership are INDUCTIVE (Apalache; unbounded ticks,
     # lengths and number of notes, up to 4 phrases).  Recorded in the evidence; nothing depends on it.
     if ctx.tier == "thorough":
